@@ -19,6 +19,7 @@ def r5(ctx):
 
 
 RULES = {
+    "C18.RL": lambda ctx: __import__("rules.common", fromlist=["x"]).loop_exit_rule(ctx, "C18.RL", {'detector::locate_sourcemap_reference': 2}),
     "C18.R1": lambda ctx: detrules.comment_scan(ctx, "C18.R1"),
     "C18.R2": lambda ctx: detrules.data_url_pairing(ctx, "C18.R2"),
     "C18.R3": lambda ctx: detrules.embedded(ctx, "C18.R3"),
